@@ -1656,22 +1656,32 @@ Proof.
     intros H; inversion H; subst. constructor; [exact I|exact E].
 Qed.
 
-(* in the unsolicited confirm wait a broadcast confirms nothing and is not answered *)
+(* the result of unsol_wait_fragment for a broadcast: a DISABLE_UNSOLICITED that the broadcast
+   processes cancels the series (fix F30), nothing else ends the wait *)
+Definition bcast_unsol_result (cfg : ocfg) (from : N) (d : digest) : option unsol_result :=
+  match to_treq cfg from d with
+  | TqRequest _ fn obj => if bcast_disable_processed cfg fn obj then Some UrReturnToIdle else None
+  | _ => None
+  end.
+
+(* in the unsolicited confirm wait a broadcast confirms nothing and is not answered; it ends the wait
+   only as a processed DISABLE_UNSOLICITED, and then no deferred READ is left *)
 Lemma uwf_bcast cfg s resp from m bytes d fid s' res o :
   unsol_wait_fragment cfg s resp from (Some m) bytes d fid = (s', res, o) ->
-  res = None /\ Forall no_tx o /\ (s_deferred s = None -> s_deferred s' = None).
+  res = bcast_unsol_result cfg from d /\ Forall no_tx o /\
+  (s_deferred s = None -> s_deferred s' = None) /\ (res <> None -> s_deferred s' = None).
 Proof.
-  unfold unsol_wait_fragment. destruct (to_treq cfg from d) as [|sq|ctl fn obj].
-  - intros H; inversion H; subst. split; [reflexivity|]. split; [constructor|auto].
+  unfold unsol_wait_fragment, bcast_unsol_result. destruct (to_treq cfg from d) as [|sq|ctl fn obj].
+  - intros H; inversion H; subst. split; [reflexivity|]. split; [constructor|]. split; [auto|intros C; contradiction].
   - destruct (write_error_response (upd_deferred s None) from (Some m) sq) as [s1 o1] eqn:E.
     apply write_error_response_spec in E. destruct E as [E1 E2]. subst o1.
     intros H; inversion H; subst. split; [reflexivity|]. split; [constructor|].
-    intros _. destruct E1 as (_ & _ & _ & _ & _ & E1 & _). exact E1.
+    destruct E1 as (_ & _ & _ & _ & _ & E1 & _). split; intros _; exact E1.
   - rewrite classify_bcast.
     destruct (process_broadcast cfg (upd_deferred s None) m fid ctl fn bytes obj) as [s1 o1] eqn:E.
     apply process_broadcast_spec in E. destruct E as [E1 E2].
     intros H; inversion H; subst. split; [reflexivity|]. split; [exact E2|].
-    intros _. destruct E1 as (_ & _ & _ & _ & _ & E1 & _). exact E1.
+    destruct E1 as (_ & _ & _ & _ & _ & E1 & _). split; intros _; exact E1.
 Qed.
 
 (* in the solicited confirm wait a broadcast never confirms: it is ignored (foreign master) or aborts
@@ -1725,12 +1735,20 @@ Proof.
       2:{ inversion H; subst. split; [split; [exact D1|rewrite Epen; exact I]|exact Ho2]. }
       destruct bc as [m|]; [|contradiction].
       destruct (unsol_wait_fragment cfg (upd_pending s2 None) resp from (Some m) bytes d fid) as [[s3 res] o3] eqn:E3.
-      pose proof (uwf_bcast _ _ _ _ _ _ _ _ _ _ _ E3) as (U1 & U2 & U3).
+      pose proof (uwf_bcast _ _ _ _ _ _ _ _ _ _ _ E3) as (_ & U2 & U3 & _).
       apply unsol_wait_fragment_frame in E3. destruct E3 as [C _].
       destruct C as (_ & _ & _ & _ & _ & C6 & _). cbn in C6.
-      subst res. inversion H; subst. split.
-      * split; [apply U3; exact D1|rewrite C6; exact I].
-      * apply Forall_app. split; [exact Ho2|apply no_tx_not_sol; exact U2].
+      assert (C3 : calm s3) by (split; [apply U3; exact D1|rewrite C6; exact I]).
+      destruct res as [r|].
+      * destruct (end_unsol cfg s3 is_null r) as [[s4 ns'] o4] eqn:E4.
+        apply end_unsol_frame in E4. destruct E4 as (_ & _ & F3 & F4 & _ & _ & _ & _ & _ & _ & F11).
+        destruct (idle_run f cfg (St3 ns') s4) as [s5 o5] eqn:E5.
+        apply IH in E5; [|destruct C3 as [G1 G2]; split; [congruence|rewrite F4; exact G2]].
+        inversion H; subst. split; [tauto|].
+        apply Forall_app. split; [exact Ho2|]. apply Forall_app. split; [apply no_tx_not_sol; exact U2|].
+        apply Forall_app. split; [apply no_tx_not_sol; exact F11|tauto].
+      * inversion H; subst. split; [exact C3|].
+        apply Forall_app. split; [exact Ho2|apply no_tx_not_sol; exact U2].
   - rewrite handle_deferred_none in H by exact Q1. destruct (s_control s).
     + destruct (idle_run f cfg (St4 ns) s) as [s4 o4] eqn:E4. apply IH in E4; [|split; assumption].
       inversion H; subst. exact E4.
@@ -1775,20 +1793,36 @@ Proof.
       apply resume_at_calm in E2; [|split; [exact Hd|cbn; discriminate]].
       cbn [snd]. constructor; [exact I|]. constructor; [exact I|tauto].
   - destruct (unsol_wait_fragment cfg s0 resp from (Some m) bytes d fid) as [[s1 res] o1] eqn:E1.
-    apply uwf_bcast in E1. destruct E1 as (-> & U2 & _). cbn [snd]. apply no_tx_not_sol. exact U2.
+    pose proof (uwf_bcast _ _ _ _ _ _ _ _ _ _ _ E1) as (_ & U2 & _ & U4).
+    apply unsol_wait_fragment_frame in E1. destruct E1 as [C _].
+    destruct C as (_ & _ & _ & _ & _ & C6 & _). cbn in C6.
+    destruct res as [r|]; [|cbn [snd]; apply no_tx_not_sol; exact U2].
+    destruct (end_unsol cfg s1 is_null r) as [[s2 ns] o2] eqn:E2.
+    apply end_unsol_frame in E2. destruct E2 as (_ & _ & F3 & F4 & _ & _ & _ & _ & _ & _ & F11).
+    destruct (resume_at cfg (St3 ns) s2) as [s3 o3] eqn:E3.
+    apply resume_at_calm in E3.
+    2:{ split; [rewrite F3; apply U4; discriminate|rewrite F4, C6, J1; exact I]. }
+    cbn [snd]. apply Forall_app. split; [apply no_tx_not_sol; exact U2|].
+    apply Forall_app. split; [apply no_tx_not_sol; exact F11|tauto].
 Qed.
 
-(* a broadcast CONFIRM completes neither kind of confirm wait *)
+(* a broadcast CONFIRM completes neither kind of confirm wait; the only broadcast that ends an
+   unsolicited confirm wait is a DISABLE_UNSOLICITED the outstation processes (fix F30), which cancels
+   the series (UrReturnToIdle, never UrConfirmed) *)
 Theorem broadcast_confirms_nothing : forall cfg s from m bytes d,
   (forall se dl, exists oc o, sol_wait_fragment cfg s se dl from (Some m) bytes d = (oc, o) /\
                               forall x, oc <> SoConfirmed x) /\
-  (forall resp fid, snd (fst (unsol_wait_fragment cfg s resp from (Some m) bytes d fid)) = None).
+  (forall resp fid, snd (fst (unsol_wait_fragment cfg s resp from (Some m) bytes d fid)) =
+                    match to_treq cfg from d with
+                    | TqRequest _ fn obj => if bcast_disable_processed cfg fn obj then Some UrReturnToIdle else None
+                    | _ => None
+                    end).
 Proof.
   intros cfg s from m bytes d. split.
   - intros se dl. destruct (swf_bcast cfg s se dl from m bytes d) as [H|H]; rewrite H; eexists; eexists;
       (split; [reflexivity|discriminate]).
   - intros resp fid. destruct (unsol_wait_fragment cfg s resp from (Some m) bytes d fid) as [[s1 res] o1] eqn:E.
-    apply uwf_bcast in E. cbn. tauto.
+    apply uwf_bcast in E. cbn [fst snd]. exact (proj1 E).
 Qed.
 
 (* ---------- 3. numbering of unsolicited responses ------------------------------------------------ *)
